@@ -331,6 +331,75 @@ Proof.
 Qed.
 End Walk.
 
+(* ---------- without evaluation nothing switches back ----------
+   the restore loop runs set_duration_timer with evalcmd = false (no finish callback is registered yet): its trace has no
+   switch-back *)
+Definition NF (s s' : st) : Prop := exists add, outs s' = add ++ outs s /\ forall ch, ~ newfin ch add.
+Lemma newfin_app_inv ch a b : newfin ch (a ++ b) -> newfin ch a \/ newfin ch b.
+Proof.
+  intros (x1 & x2 & x3 & x4 & x5 & x6 & H). apply in_app_or in H.
+  destruct H as [H|H]; [left|right]; exists x1, x2, x3, x4, x5, x6; exact H.
+Qed.
+Lemma NF_refl s : NF s s.
+Proof. exists []. split; [reflexivity|]. intros ch (x1 & x2 & x3 & x4 & x5 & x6 & []). Qed.
+Lemma NF_trans a b d : NF a b -> NF b d -> NF a d.
+Proof.
+  intros (a1 & O1 & N1) (a2 & O2 & N2). exists (a2 ++ a1). split; [rewrite O2, O1, app_assoc; reflexivity|].
+  intros ch H. apply newfin_app_inv in H. destruct H as [H|H]; [apply (N2 ch H)|apply (N1 ch H)].
+Qed.
+Lemma NF_passive s s' : passive s s' -> NF s s'.
+Proof.
+  intros P. destruct (pa_outs _ _ P) as (add & O & F). exists add. split; [exact O|].
+  intros ch (x1 & x2 & x3 & x4 & x5 & x6 & H). rewrite Forall_forall in F. apply (F _ H).
+Qed.
+Lemma NF_same s s' : outs s' = outs s -> NF s s'.
+Proof. intros E. exists []. split; [exact E|]. intros ch (x1 & x2 & x3 & x4 & x5 & x6 & []). Qed.
+Lemma NF_startstop s : NF s (startstop s).
+Proof. unfold startstop. destruct (_ || _); [destruct (0 <? _)|]; apply NF_same; reflexivity. Qed.
+Lemma NF_disarm c ch s : NF s (disarm c ch s).
+Proof.
+  unfold disarm. destruct (find_slot _ _ _) as [i|]; [|apply NF_refl].
+  set (s1 := set_slots _ s).
+  destruct (0 <? _); [|apply NF_same; reflexivity].
+  apply NF_trans with (b := s1); [apply NF_same; reflexivity|].
+  apply NF_trans with (b := t2_set ch 0 s1); [apply NF_passive, passive_t2_set|].
+  destruct (chflags_of _ _ _); [destruct (hasf _ _)|]; try apply NF_refl. apply NF_passive, passive_ext_changed.
+Qed.
+Lemma NF_arm_slot c ms g ch tg sd s : NF s (countdown_arm_slot c ms g ch tg sd s).
+Proof.
+  unfold countdown_arm_slot. destruct (match find_slot _ _ _ with Some _ => _ | None => _ end) as [i|]; [|apply NF_refl].
+  assert (U : NF s (fst (uptime_msec s))).
+  { unfold uptime_msec, uptime_usec. cbn [fst]. eexists [_]. split; [reflexivity|].
+    intros k (x1 & x2 & x3 & x4 & x5 & x6 & [H|[]]). discriminate. }
+  destruct (uptime_msec s) as [s1 u]. cbn [fst] in U.
+  eapply NF_trans; [exact U|]. eapply NF_trans; [|apply NF_startstop]. eapply NF_trans; [|apply NF_passive, passive_t2_set].
+  eexists [_]. split; [reflexivity|]. intros k (x1 & x2 & x3 & x4 & x5 & x6 & [H|[]]). discriminate.
+Qed.
+Lemma NF_sdt_false c ch v dur sd s : NF s (set_duration_timer false c ch v dur sd s).
+Proof.
+  unfold set_duration_timer.
+  set (stair := (ch <? ST_T2_COUNT) && (ch <? T2_COUNT) && (0 <? getz (time2 s) ch)).
+  set (s0 := if stair && (v =? 0) then set_ram_t2 (setz (ram_t2 s) ch 0) s else s).
+  assert (N0 : NF s s0) by (unfold s0; destruct (stair && (v =? 0)); apply NF_same; reflexivity).
+  set (dur1 := if stair then _ else dur). clearbody dur1.
+  assert (N1 : NF s (disarm c (u8 ch) s0)) by (eapply NF_trans; [exact N0|apply NF_disarm]).
+  destruct (0 <? dur1); [|exact N1].
+  destruct (find_chan _ _ _) as [[a r]|]; [|exact N1].
+  set (s1 := disarm c (u8 ch) s0) in *.
+  set (hf := hasf (getz (chfl s1) a) CHFLAG_COUNTDOWN). clearbody hf.
+  assert (N2 : NF s (if (v =? 1) || hf then countdown false c (u32 dur1) (r_gpio r) (u8 ch) (if v =? 0 then 1 else 0) sd s1 else s1)).
+  { destruct ((v =? 1) || hf); [|exact N1]. unfold countdown. eapply NF_trans; [exact N1|apply NF_arm_slot]. }
+  destruct hf; [|exact N2]. eapply NF_trans; [exact N2|apply NF_passive, passive_ext_changed].
+Qed.
+Lemma NF_restore_false c s ar : NF s (restore_relay false c s ar).
+Proof.
+  destruct ar as [a r]. unfold restore_relay. destruct (_ || _).
+  - eapply NF_trans; [|apply NF_passive, passive_relay_hi]. destruct (_ && _); [apply NF_sdt_false|apply NF_refl].
+  - destruct (hasf _ _); [apply NF_passive, passive_relay_hi|apply NF_refl].
+Qed.
+Lemma NF_fold_false c l : forall s, NF s (fold_left (restore_relay false c) l s).
+Proof. induction l as [|ar l IH]; intros s; cbn [fold_left]; [apply NF_refl|]. eapply NF_trans; [apply NF_restore_false|apply IH]. Qed.
+
 (* ---------- the restore loop ---------- *)
 Section W.
 Context {wr : Wraps}.
@@ -530,30 +599,28 @@ End Loop.
 Definition chfl_init (c : cfg) (r : relay) : Z := if c_lateflags c then 0 else r_chfl r.
 
 Theorem restore_all_w e c s :
-  wf_cfg c -> NoDup (map r_gpio (c_relays c)) -> NoDup (map r_chan (c_relays c)) -> (length (c_relays c) <= 8)%nat ->
+  wf_cfg c -> NoDup (map r_gpio (c_relays c)) -> NoDup (map r_chan (c_relays c)) ->
   TrO s -> 0 <= cnt0 s -> tb s <= now s ->
   let s' := boot e c s in
   NWw s' ->
-  exists add, outs s' = add ++ outs s /\
   forall a r, In (a, r) (enum 0 (c_relays c)) -> restoring r = true ->
     let v := getz (fl_relay s) a in
     let T := getz (fl_t2 s) (r_chan r) in
     v = 0 \/ v = 1 ->
-    (* every restored relay is back in its saved state, unless its re-armed timer has already switched it back ... *)
-    (pin s' (r_gpio r) = xorb (v =? 1) (hasf (r_flags r) FLAG_LO_LEVEL) \/ newfin (r_chan r) add) /\
-    (* ... and its timer is armed again for the saved remaining time (each relay of the loop costs at most 9 relay
-       operations of busy waiting) *)
+    (* every restored relay is back in its saved state (nothing is evaluated, nothing switches back inside the loop) ... *)
+    pin s' (r_gpio r) = xorb (v =? 1) (hasf (r_flags r) FLAG_LO_LEVEL) /\
+    (* ... and its timer is armed again for the saved remaining time *)
     (0 < T < 2147483648 ->
      v = 1 \/ (getz (time2 s) (r_chan r) = 0 /\ hasf (chfl_init c r) CHFLAG_COUNTDOWN = true) ->
      exists t0, now s <= t0 <= now s + (a + 1) * (9 * OP) /\ In (GArm t0 (r_chan r) T (1 - v)) (outs s')).
 Proof.
-  intros W NDg NDc Hlen TO C0 Ct s' N. unfold s', boot, boot_l in *. clear s'.
+  intros W NDg NDc TO C0 Ct s' N. pose proof (wf_len _ W) as Hlen. unfold s', boot, boot_l in *. clear s'.
   remember (t_arm TUP UPTIME_POLL_MS true (set_upc 0 (set_upl 0 (set_seqc 0 (set_li 0 (set_tcd tmr0 (set_tsv tmr0 (set_tup tmr0 s)))))))) as s1 eqn:Es1.
   remember (set_ram_relay (fl_relay s1) (set_ram_t2 (fl_t2 s1) s1)) as s2 eqn:Es2.
   remember (set_slots (repeat slot_free 8) (set_delay 0 s2)) as s3 eqn:Es3.
   remember (set_chfl (if c_lateflags c then map (fun _ => 0) (c_relays c) else map r_chfl (c_relays c)) s3) as s4 eqn:Es4.
   remember (set_obuf [] (set_regreq false (set_queue [] (set_conn false (set_reg false (set_gout 0 s4)))))) as s5 eqn:Es5.
-  remember (fold_left (restore_relay e c) (enum 0 (c_relays c)) s5) as s6 eqn:Es6.
+  remember (fold_left (restore_relay false c) (enum 0 (c_relays c)) s5) as s6 eqn:Es6.
   assert (A5 : slots s5 = repeat slot_free 8 /\ delay s5 = 0 /\ tcd s5 = tmr0 /\ cnt0 s5 = cnt0 s /\ tb s5 = tb s /\ now s5 = now s /\
                upc s5 = 0 /\ upl s5 = 0 /\ outs s5 = outs s /\ time2 s5 = time2 s).
   { subst s5 s4 s3 s2 s1. cbn. repeat split; reflexivity. }
@@ -583,15 +650,17 @@ Proof.
     - cbn. lia.
     - exists []. split; [reflexivity|]. intros a r [].
     - intros x Hx Ax. rewrite a1 in Hx. destruct (free_inactive x Hx). congruence. }
-  pose proof (restore_fold e c W NDg NDc Hlen s5 (c_relays c) [] s5 s6 eq_refl FI0 Es6 N6) as [_ _ _ _ (add & Oa & Dn) _ _].
+  pose proof (restore_fold false c W NDg NDc Hlen s5 (c_relays c) [] s5 s6 eq_refl FI0 Es6 N6) as [_ _ _ _ (add & Oa & Dn) _ _].
   cbn [app] in Dn.
+  assert (NoF : forall ch, ~ newfin ch add).
+  { destruct (NF_fold_false c (enum 0 (c_relays c)) s5) as (add' & Oa' & Nf). rewrite <- Es6, Oa in Oa'.
+    apply app_inv_tail in Oa'. subst add'. exact Nf. }
   destruct (fr_outs _ _ F67) as (ad7 & E7).
   assert (E1 : outs (set_seqc (seqc s7 + 1) s7) = ad7 ++ outs s6) by (rewrite <- E7; reflexivity).
   assert (E2 : forall p, pin (set_seqc (seqc s7 + 1) s7) p = pin s6 p) by (intros p; subst s7; reflexivity).
-  exists (ad7 ++ add). split; [rewrite E1, Oa, a9, app_assoc; reflexivity|].
   intros a r Hin Rr. set (v := getz (fl_relay s) a). set (T := getz (fl_t2 s) (r_chan r)). intros Hv. specialize (Dn a r Hin). unfold Done in Dn. specialize (Dn Rr). cbn zeta in Dn. rewrite b1, b2, a6, a10 in Dn.
   destruct (Dn Hv) as [Dp Dt]. fold v T in Dp, Dt.
-  split; [rewrite E2; destruct Dp as [Dp|Dp]; [left; exact Dp|right; apply newfin_app; right; exact Dp]|].
+  split; [rewrite E2; destruct Dp as [Dp|Dp]; [exact Dp|exfalso; apply (NoF _ Dp)]|].
   intros HT Hcase. rewrite E1.
   cut (exists t0 : Z, now s <= t0 <= now s + (a + 1) * (9 * OP) /\ In (GArm t0 (r_chan r) T (1 - v)) (outs s6)).
   { intros (t0 & Ht0 & Hi). exists t0. split; [exact Ht0|]. apply in_or_app. right. exact Hi. }
@@ -607,22 +676,21 @@ End W.
 
 (* no wrap at all (WB = 0): the statement as before *)
 Theorem restore_all_thm e c s :
-  wf_cfg c -> NoDup (map r_gpio (c_relays c)) -> NoDup (map r_chan (c_relays c)) -> (length (c_relays c) <= 8)%nat ->
+  wf_cfg c -> NoDup (map r_gpio (c_relays c)) -> NoDup (map r_chan (c_relays c)) ->
   TrO s -> 0 <= cnt0 s -> tb s <= now s ->
   let s' := boot e c s in
   NW s' ->
-  exists add, outs s' = add ++ outs s /\
   forall a r, In (a, r) (enum 0 (c_relays c)) -> restoring r = true ->
     let v := getz (fl_relay s) a in
     let T := getz (fl_t2 s) (r_chan r) in
     v = 0 \/ v = 1 ->
-    (pin s' (r_gpio r) = xorb (v =? 1) (hasf (r_flags r) FLAG_LO_LEVEL) \/ newfin (r_chan r) add) /\
+    pin s' (r_gpio r) = xorb (v =? 1) (hasf (r_flags r) FLAG_LO_LEVEL) /\
     (0 < T < 2147483648 ->
      v = 1 \/ (getz (time2 s) (r_chan r) = 0 /\ hasf (chfl_init c r) CHFLAG_COUNTDOWN = true) ->
      exists t0, now s <= t0 <= now s + (a + 1) * (9 * OP) /\ In (GArm t0 (r_chan r) T (1 - v)) (outs s')).
 Proof.
-  intros W NDg NDc Hlen TO C0 Ct s' N.
-  exact (@restore_all_w nowrap e c s W NDg NDc Hlen TO C0 Ct (NW_NWw _ N)).
+  intros W NDg NDc TO C0 Ct s' N.
+  exact (@restore_all_w nowrap e c s W NDg NDc TO C0 Ct (NW_NWw _ N)).
 Qed.
 
 (* ---------- the hypotheses are satisfiable, the conclusion is not vacuous ---------- *)
